@@ -272,25 +272,54 @@ func extractListingCfg(x *extractor) {
 						}
 					case "sshFxpName":
 						sawName = true
-						cb := x10Stmts(pi, cc.Body)
-						// sid, data := unmarshalUint32(data); if sid != id {…}; count, data := unmarshalUint32(data); for i := uint32(0); i < count; i++ {…}
+						// `if err != nil { return nil, err }` after a decoder call is not a listing fact: dropped before matching, so
+						// both the unchecked decoders (unmarshalUint32 / unmarshalString) and the bounds-checked ones
+						// (unmarshalUint32Safe / unmarshalStringSafe, which also assign err) are accepted.
+						const errRet = "if err != nil { return nil, err }"
+						dropErrRet := func(list []ast.Stmt) []ast.Stmt {
+							var out []ast.Stmt
+							for _, s := range x10Stmts(pi, list) {
+								if x10Text(s) != errRet {
+									out = append(out, s)
+								}
+							}
+							return out
+						}
+						oneOf := func(t string, alts ...string) bool {
+							for _, a := range alts {
+								if t == a {
+									return true
+								}
+							}
+							return false
+						}
+						cb := dropErrRet(cc.Body)
+						// sid, data := unmarshalUint32(data); if sid != id {…}; count, data[, err] := unmarshalUint32[Safe](data); for i := uint32(0); i < count; i++ {…}
 						var inner *ast.ForStmt
 						if len(cb) == 4 {
 							inner, _ = cb[3].(*ast.ForStmt)
 						}
-						if inner == nil || x10Text(cb[0]) != "sid, data := unmarshalUint32(data)" || x10Text(cb[2]) != "count, data := unmarshalUint32(data)" ||
+						if inner == nil || x10Text(cb[0]) != "sid, data := unmarshalUint32(data)" ||
+							x10Text(cb[1]) != "if sid != id { return nil, &unexpectedIDErr{id, sid} }" ||
+							!oneOf(x10Text(cb[2]), "count, data := unmarshalUint32(data)", "count, data, err := unmarshalUint32Safe(data)") ||
 							x10Text(inner.Cond) != "i < count" || x10Text(inner.Init) != "i := uint32(0)" || x10Text(inner.Post) != "i++" {
 							u.fail("ReadDirContext: NAME case shape not recognised (%s)", pi.pos(cc))
 							continue
 						}
-						it := x10Texts(pi, inner.Body.List)
-						pre := []string{"var filename string", "filename, data = unmarshalString(data)", "_, data = unmarshalString(data)",
-							"var attr *FileStat", "attr, data, err = unmarshalAttrs(data)", "if err != nil { return nil, err }"}
-						if len(it) < len(pre)+1 || !x10Eq(it[:len(pre)], pre...) {
+						var it []string
+						for _, s := range dropErrRet(inner.Body.List) {
+							it = append(it, x10Text(s))
+						}
+						// var filename string; filename := string; _ := longname; var attr *FileStat; attr := attrs
+						const npre = 5
+						if len(it) < npre+1 || it[0] != "var filename string" ||
+							!oneOf(it[1], "filename, data = unmarshalString(data)", "filename, data, err = unmarshalStringSafe(data)") ||
+							!oneOf(it[2], "_, data = unmarshalString(data)", "_, data, err = unmarshalStringSafe(data)") ||
+							it[3] != "var attr *FileStat" || it[4] != "attr, data, err = unmarshalAttrs(data)" {
 							u.fail("ReadDirContext: entry decoding is not name, longname, attrs: %q (%s)", it, pi.pos(inner))
 							continue
 						}
-						it = it[len(pre):]
+						it = it[npre:]
 						const dots = `if filename == "." || filename == ".." { continue }`
 						if len(it) == 2 && it[0] == dots {
 							filterDots = true
